@@ -32,6 +32,16 @@ TRUSTED = [
 PER_CASE_TIMEOUT = 5.0
 
 U64 = 2**64
+HOOK_FIND_EXCL = 'fn find_exclusive_publication_for_verif'
+
+
+def has_find_excl_hook():
+    """find_exclusive_publication is pub(crate): looked up through the add-only hook of hooks/cond-find-exclusive.diff;
+    while the repository under test lacks it, lookups of exclusive publications are not generated."""
+    try:
+        return HOOK_FIND_EXCL in open(os.path.join(core.REPO, 'src', 'client_conductor.rs')).read()
+    except OSError:
+        return False
 KINDS = ['KPub', 'KExPub', 'KSub', 'KCounter', 'KDest']
 
 
@@ -141,6 +151,7 @@ def gen_history(rng, malformed=False):
     if malformed:
         t0 = rng.choice([0, U64 - 1 - 20000, U64 - 1 - 400, 2**63 - 100, 2**62 - 600])
     sim = _Sim(td, inter_ns, t0, cid)
+    xhook = has_find_excl_hook()
     ops = []
     n = rng.randrange(4, 41)
     tstate = {'slot': None if rng.random() < 0.7 else rng.randrange(0, 4)}
@@ -185,12 +196,13 @@ def gen_history(rng, malformed=False):
                 now = min(now, U64 - 1)
             if sim.regs and rng.random() < 0.85:
                 kind, rid, _ = rng.choice(sim.regs)
-                if kind == 1:
-                    kind = rng.choice([0, 2, 3, 4])   # find_exclusive_publication is not public
+                fk = [0, 1, 2, 3, 4] if xhook else [0, 2, 3, 4]
+                if kind == 1 and not xhook:
+                    kind = rng.choice(fk)   # find_exclusive_publication is not public: only through the hook
                 if rng.random() < 0.1:
-                    kind = rng.choice([0, 2, 3, 4])
+                    kind = rng.choice(fk)
             else:
-                kind, rid = rng.choice([0, 2, 3, 4]), rng.choice([0, cid, sim.next_id + 5])
+                kind, rid = rng.choice([0, 1, 2, 3, 4] if xhook else [0, 2, 3, 4]), rng.choice([0, cid, sim.next_id + 5])
             ops.append(['F', kind, rid, now])
             sim.now = max(sim.now, now)
     return {'kind': 'malformed' if malformed else 'run', 'cfg': [td, 5000, inter_ns, t0, cid], 'ops': ops, 'near': sim.near}
@@ -224,6 +236,11 @@ def scripted():
         ops = [['A', 0, 500], ['A', 2, 500], ['A', 3, 500], ['A', 4, 500],
                ['F', 0, 1, 500 + 10000 + d], ['F', 2, 2, 500 + 10000 + d], ['F', 3, 3, 500 + 10000 + d], ['F', 4, 4, 500 + 10000 + d]]
         cases.append({'kind': 'run', 'cfg': [10000, 5000, 10**12, 500, 0], 'ops': ops, 'near': True})
+        if has_find_excl_hook():
+            # the same boundary for an exclusive publication (hook find_exclusive_publication_for_verif), also after an error answer
+            ops = [['A', 1, 500], ['A', 1, 700], ['F', 1, 1, 500 + 10000 + d], ['F', 1, 2, 500 + 10000 + d], ['F', 1, 2, 700 + 10000 + d],
+                   ['C', 10700 + d, 10700, none, [1, 3]], ['F', 1, 1, 10700 + d], ['F', 1, 1, 10700 + d], ['F', 0, 2, 10700 + d]]
+            cases.append({'kind': 'run', 'cfg': [10000, 5000, 10**12, 500, 0], 'ops': ops, 'near': True})
         # heartbeat counter found at the first keep-alive after it appears, refreshed at +501, not at +500
         hbt = [z3, [1, 11, 9], z3, z3]
         ops = [['C', 2000, 2000, none, None], ['C', 2501 + d, 2501, hbt, None], ['C', 3002 + d, 3002, hbt, None],
@@ -336,4 +353,7 @@ def extra_checks(run):
     n_find = norm.count('if (self.epoch_clock)() > state.time_of_registration_ms + self.driver_timeout_ms {')
     res.append((not missing and n_find == 5, 'K1-operators',
                 'missing: %s; find_* timeout comparisons found: %d (expected 5)' % (missing, n_find)))
+    res.append((True, 'hook find_exclusive_publication_for_verif',
+                'present: find_exclusive_publication is driven like the other lookups' if has_find_excl_hook() else
+                'ABSENT in the repository under test: lookups of exclusive publications are not generated (K1-operators covers the comparison)'))
     return res
